@@ -442,6 +442,15 @@ def _emit_fn(g, source, a, blocks, vacuity, probe_insert=None):
         if not cnt:
             raise ExtractError(f"anchor lost: no `move || {{ .. }}` closure in {f.name}")
         rules.append(("R11d", f"{cnt} `move || {{ .. }}` closure(s) replaced by vopaque_closure(): their bodies are not verified"))
+    # R26: calls of NEW simple private helpers of the same file are expanded in place
+    try:
+        import inventory as _inv
+        _all = _inv.load().get("__all__", {}).get(f.file)
+        _known = None if _all is None else {l.split(" / ")[-1] for l in _all}
+    except Exception:
+        _known = None
+    from rsx import inline_new_helpers
+    body_src = inline_new_helpers(body_src, source(f.file), _known, rules)
     # R2c: an import alias of the `ready!` macro in the same file (`use futures_core::ready as NAME;`) is resolved:
     # `NAME!(` -> `ready!(` (the unit defines `ready!` exactly as futures_core / std does)
     for alias in set(re.findall(r"\bready\s+as\s+(\w+)", source(f.file).src)):
